@@ -3,7 +3,7 @@ shape, and the AST -> MAST lowering of if/while/repeat and the locals prologue/e
 import re
 from .mirutil import *
 from .mirsym import Interp, Poly, Term, Agg, Ptr, Opaque, enumerate_paths, Unanalysable, PanicReached, deref
-from . import procmodel
+from . import procmodel, execmodel
 
 LEVEL = "other"
 CONSEQ = r"Process::(execute_code_block|execute_op|end_\w+_block|execute_\w+_block)$|Decoder::repeat$"
@@ -49,91 +49,163 @@ def felt_cmps(F, fn):
     return out
 
 
+def sym_name(v):
+    return sorted(v.vars())[0] if isinstance(v, Poly) else None
+
+
+def symbols_of(path):
+    """[(symbol, index of the event that introduced it)] for the branch-deciding values of a path"""
+    out = []
+    for i, e in enumerate(path["events"]):
+        if e[0] == "start" and e[2] is not None:
+            out.append((sym_name(e[2]), i, "condition returned by start_%s_block" % e[1]))
+        if e[0] == "peek":
+            out.append((sym_name(e[1]), i, "Stack::peek"))
+    return out
+
+
+CONSEQUENCE = ("child", "repeat", "op", "end", "dyn")
+
+
 def r1_three_way(ctx, F):
+    """every value an executor branches on: a path that a non-binary value can take must end in Err(NotBinaryValue(that value))
+    without any consequence (child execution, REPEAT, operation, end_*) after the value was read; NotBinaryValue is returned
+    for non-binary values only"""
     total = 0
-    for fname in ("execute_split_block", "execute_loop_block"):
-        fn = F.fn(r"^miden_processor::Process::%s$" % fname)
-        cs = felt_cmps(F, fn)
-        ones = [c for c in cs if c["const"] == 1 and c["op"] == "=="]
-        zeros = [c for c in cs if c["const"] == 0 and c["op"] in ("==", "!=")]
-        ctx.analysed("%s: comparisons with ONE at lines %s, with ZERO at lines %s" % (fname, [c["ln"] for c in ones], [c["ln"] for c in zeros]))
-        conseq = set(bi for bi, cal, t in fn.calls() if re.search(CONSEQ, cal))
-        rets = set(return_blocks(fn))
-        errb = err_blocks(fn)
-        for c1 in ones:
+    for kind in ("split", "loop"):
+        fname = "execute_%s_block" % kind
+        fn, paths = execmodel.executor_paths(F, kind)
+        bad = [p for p in paths if p["outcome"][0] in ("unanalysable", "panic")]
+        if bad:
+            ctx.inst(key=fname, nontrivial=True)
+            ctx.violation("UNANALYSABLE|%s" % fname, fn.loc(), str(bad[0]["outcome"][1])[:300])
+            continue
+        syms = {}
+        for p in paths:
+            for s, i, what in symbols_of(p):
+                syms.setdefault((s, what), []).append((p, i))
+        ctx.analysed("%s: %d paths, branch-deciding values %s" % (fname, len(paths), sorted(k[0] for k in syms)))
+        for (s, what), occ in sorted(syms.items()):
             total += 1
-            ctx.inst(key="%s|%s|%d" % (fname, c1["src"], ones.index(c1)), nontrivial=True)
-            zero_sw = {z["block"]: z for z in zeros if z["src"] == c1["src"] or (z["src"][0] == "call" and c1["src"][0] == "call" and z["src"][1] == c1["src"][1])}
-            # every path from the not-ONE branch must meet a ZERO comparison on the same value before any consequence
-            bad = None
-            seen, st = set(), [c1["false"]]
-            okz = []
-            while st:
-                b = st.pop()
-                if b in seen:
+            src = "start" if what.startswith("condition") else "Stack::peek"
+            ctx.inst(key="%s|%s|%s" % (fname, src, s), nontrivial=True)
+            classes_seen = set()
+            for p, i in occ:
+                adm = execmodel.admitted(p["guards"], s)
+                if not adm:
                     continue
-                seen.add(b)
-                if b in zero_sw:
-                    okz.append(zero_sw[b])
-                    continue
-                if b in conseq or (b in rets):
-                    bad = b
-                    break
-                # a comparison call block of the same source is transparent; error blocks are fine
-                if b in errb:
-                    continue
-                st.extend(fn.succs(b))
-            inst = "%s|%s" % (fname, c1["src"][1])
-            ctx.oblig(bad is None)
-            if bad is not None:
-                t = fn.blocks[bad]["t"]
-                ctx.violation("one-sided-condition|%s" % inst, fn.loc(c1["ln"]),
-                              "in %s the value compared with ONE at line %d takes the other path for EVERY value != 1: the not-ONE branch reaches %s (line %d) "
-                              "without comparing the value with ZERO and failing with NotBinaryValue otherwise" % (fname, c1["ln"], t.get("f", {}).get("fn", "return"), t["ln"]))
-                continue
-            for z in okz:
-                reach = fn.reachable_blocks(z["false"] if z["op"] == "==" else z["true"])
-                builds = any(s["r"].get("variant") == "NotBinaryValue" for bi in reach for s in fn.blocks[bi]["s"] if s["r"]["k"] == "agg")
-                bad2 = [bi for bi in reach if bi in conseq]
-                ctx.oblig(builds and not bad2)
-                if not builds or bad2:
-                    ctx.violation("non-binary-not-rejected|%s" % inst, fn.loc(z["ln"]), "in %s the neither-ONE-nor-ZERO branch does not return NotBinaryValue before continuing" % fname)
-    ctx.floor("ONE-comparisons", total, 3)
+                later = [e for e in p["events"][i + 1:] if e[0] in CONSEQUENCE]
+                nonbin = [v for v in adm if v not in (0, 1)]
+                is_nb = p["outcome"][0] == "err" and p["outcome"][1] == "NotBinaryValue" and sym_name(p["outcome"][2][0]) == s
+                if nonbin and p["outcome"] != ("truncated",):
+                    ok = is_nb and not later
+                    ctx.oblig(ok)
+                    if not ok:
+                        what_next = ("%s(%s)" % (later[0][0], ", ".join(str(x) for x in later[0][1:]))) if later else "outcome %s" % (p["outcome"][:2],)
+                        ctx.violation("one-sided-condition|%s|%s" % (fname, src), fn.loc(),
+                                      "in %s a path taken for the non-binary value %s of the %s continues with %s instead of failing with NotBinaryValue: the value is compared on one side only"
+                                      % (fname, nonbin[0], what, what_next))
+                if is_nb:
+                    okb = not [v for v in adm if v in (0, 1)]
+                    ctx.oblig(okb)
+                    if not okb:
+                        ctx.violation("binary-rejected|%s|%s" % (fname, src), fn.loc(), "in %s the value %s of the %s is rejected with NotBinaryValue" % (fname, [v for v in adm if v in (0, 1)], what))
+                classes_seen |= set(adm)
+            if not ({0, 1} <= classes_seen):
+                ctx.violation("condition-values|%s|%s" % (fname, src), fn.loc(), "in %s no successful path exists for value(s) %s of the %s" % (fname, sorted({0, 1} - classes_seen), what))
+    ctx.floor("branch-deciding-values", total, 4)
 
 
 def r2_executor_shape(ctx, F):
-    # split: on_true only under ==ONE, on_false only under ==ZERO
-    fn = F.fn(r"^miden_processor::Process::execute_split_block$")
-    cs = felt_cmps(F, fn)
-    one = [c for c in cs if c["const"] == 1]
-    zero = [c for c in cs if c["const"] == 0]
-    for bi, cal, t in fn.calls_to(r"Process::execute_code_block$"):
-        sl = fn.backward_slice(t["args"][1]["l"])
-        which = [c for b2, c, tt in sl["calls"] if re.search(r"Split::on_(true|false)$", c)]
-        ctx.inst(key="split|%s" % which, nontrivial=True)
-        if len(which) != 1:
-            ctx.violation("split-child-provenance", fn.loc(t["ln"]), "execute_code_block in execute_split_block takes %s" % which)
+    for kind in ("join", "split", "loop", "call", "dyn"):
+        fname = "execute_%s_block" % kind
+        fn, paths = execmodel.executor_paths(F, kind)
+        ctx.inst(key="shape|" + kind, nontrivial=True)
+        bad = [p for p in paths if p["outcome"][0] in ("unanalysable", "panic")]
+        if bad:
+            ctx.violation("UNANALYSABLE|%s" % fname, fn.loc(), str(bad[0]["outcome"][1])[:300])
             continue
-        want = one if which[0].endswith("on_true") else zero
-        ok = bool(want) and any(bi in fn.reachable_blocks(c["true"]) and bi not in fn.reachable_blocks(c["false"], avoid={c["block"]}) or
-                                (bi in fn.reachable_blocks(c["true"]) and fn.dominates(c["true"], bi)) for c in want)
-        ctx.oblig(ok)
-        if not ok:
-            ctx.violation("split-branch|%s" % which[0].rsplit("::", 1)[-1], fn.loc(t["ln"]), "%s is not executed exactly under condition == %s" % (which[0], "ONE" if want is one else "ZERO"))
-    # join: first before second
-    fj = F.fn(r"^miden_processor::Process::execute_join_block$")
-    order = []
-    for bi, cal, t in fj.calls_to(r"Process::execute_code_block$"):
-        sl = fj.backward_slice(t["args"][1]["l"])
-        which = [c.rsplit("::", 1)[-1] for b2, c, tt in sl["calls"] if re.search(r"Join::(first|second)$", c)]
-        order.append((bi, which))
-    ctx.inst(key="join", nontrivial=True)
-    ok = len(order) == 2 and order[0][1] == ["first"] and order[1][1] == ["second"] and fj.dominates(order[0][0], order[1][0])
-    ctx.oblig(ok)
-    if not ok:
-        ctx.violation("join-order", fj.loc(), "execute_join_block must execute first() then second(): %s" % order)
-    # every executor: start_* dominates child execution; end_* is reached on success after it
-    for name in ("join", "split", "loop", "call", "dyn", "span"):
+        oks = [p for p in paths if p["outcome"] == ("ok",)]
+        if not oks:
+            ctx.violation("executor-shape|%s" % kind, fn.loc(), "%s has no successful path" % fname)
+            continue
+        for p in paths:
+            evs = [e for e in p["events"] if e[0] not in ("peek", "kernel")]
+            starts = [i for i, e in enumerate(evs) if e[0] == "start"]
+            ends = [i for i, e in enumerate(evs) if e[0] == "end"]
+            kids = [i for i, e in enumerate(evs) if e[0] in ("child", "dyn", "op", "repeat")]
+            ok = len(starts) <= 1 and all(evs[i][1] == kind for i in starts + ends) and (not (kids or ends) or (starts == [0]))
+            ctx.oblig(ok)
+            if not ok:
+                ctx.violation("executor-shape|%s" % kind, fn.loc(), "%s: start_%s_block must come first and exactly once before any child execution or end_*: path %s" % (fname, kind, [e[:2] for e in evs]))
+                break
+            if p["outcome"] == ("ok",):
+                ok = len(ends) == 1 and ends[0] == len(evs) - 1 and starts == [0]
+                ctx.oblig(ok)
+                if not ok:
+                    ctx.violation("executor-end|%s" % kind, fn.loc(), "%s must call end_%s_block exactly once, as the last step of every successful path: path %s" % (fname, kind, [e[:2] for e in evs]))
+                    break
+            elif p["outcome"][0] == "err" and ends:
+                ctx.violation("executor-end|%s" % kind, fn.loc(), "%s closes the block on a failing path: %s" % (fname, [e[:2] for e in evs]))
+                break
+        if kind == "split":
+            for want, val in (("on_true", 1), ("on_false", 0)):
+                ctx.inst(key="split|%s" % want, nontrivial=True)
+                hit = False
+                ok = True
+                for p in paths:
+                    ss = symbols_of(p)
+                    if not ss:
+                        continue
+                    adm = execmodel.admitted(p["guards"], ss[0][0])
+                    kids = [e[1] for e in p["events"] if e[0] == "child"]
+                    if val in adm:
+                        hit = True
+                        ok = ok and kids == [want] and p["outcome"] == ("ok",)
+                    elif want in kids:
+                        ok = False
+                ctx.oblig(ok and hit)
+                if not (ok and hit):
+                    ctx.violation("split-branch|%s" % want, fn.loc(), "Split::%s is not executed exactly under condition == %s" % (want, "ONE" if val else "ZERO"))
+        if kind == "join":
+            ctx.inst(key="join", nontrivial=True)
+            ok = all([e[1] for e in p["events"] if e[0] == "child"] == ["first", "second"] for p in oks)
+            ctx.oblig(ok)
+            if not ok:
+                ctx.violation("join-order", fn.loc(), "execute_join_block must execute first() then second(): %s" % [[e[1] for e in p["events"] if e[0] == "child"] for p in oks])
+        if kind == "loop":
+            ctx.inst(key="loop-iteration", nontrivial=True)
+            ok = True
+            why = ""
+            for p in paths:
+                evs = p["events"]
+                ss = symbols_of(p)
+                for s, i, what in ss:
+                    adm = execmodel.admitted(p["guards"], s)
+                    nxt = [e for e in evs[i + 1:] if e[0] != "peek"]
+                    head = [(e[0],) + tuple(e[1:2]) for e in nxt[:3]]
+                    if what.startswith("condition"):
+                        if adm == [1] and head[:1] != [("child", "body")]:
+                            ok, why = False, "condition ONE is not followed by the loop body: %s" % head
+                        if adm == [0] and not (nxt and nxt[0][0] == "end" and nxt[0][2] == (False,) and len(nxt) == 1):
+                            ok, why = False, "condition ZERO must close the loop without dropping (end_loop_block(.., false)): %s" % [e[:3] for e in nxt[:2]]
+                    else:
+                        if adm == [1] and p["outcome"] != ("truncated",) and head != [("repeat",), ("op", "Drop"), ("child", "body")]:
+                            ok, why = False, "a ONE on top of the stack after the body must be followed by REPEAT, Drop and the body: %s" % head
+                        if adm == [0] and not (nxt and nxt[0][0] == "end" and nxt[0][2] == (True,) and len(nxt) == 1):
+                            ok, why = False, "a ZERO on top of the stack after the body must close the loop and drop it (end_loop_block(.., true)): %s" % [e[:3] for e in nxt[:2]]
+            ctx.oblig(ok)
+            if not ok:
+                ctx.violation("loop-iteration", fn.loc(), "execute_loop_block: " + why)
+        if kind == "call":
+            ctx.inst(key="call-target", nontrivial=True)
+            ok = all(([e for e in p["events"] if e[0] in ("child", "dyn")] in ([("child", "callee")], [("dyn",)])) for p in oks)
+            sysk = all((("kernel",) in p["events"]) == any(repr(g[0]) == "is_syscall" and g[1] != 0 for g in p["guards"]) for p in oks)
+            ctx.oblig(ok and sysk)
+            if not (ok and sysk):
+                ctx.violation("call-target", fn.loc(), "execute_call_block must execute exactly the block found under fn_hash (or the dynamic block), after access_kernel_proc for syscalls")
+    # span executor: start_* dominates batch execution and end_* (CFG shape; its loops over batches are decided by C13-R3)
+    for name in ("span",):
         f = F.fn(r"^miden_processor::Process::execute_%s_block$" % name)
         starts = blocks_calling(f, r"Process::start_%s_block$" % name)
         ends = blocks_calling(f, r"Process::end_%s_block$" % name)
@@ -257,7 +329,7 @@ def r3b_locals_wrapper(ctx, F):
 def run(ctx, F):
     ctx.trusted += ["rustc MIR via mirfacts", "mirsym"]
     ctx.assumptions += ["decides the shape of the executors and of the lowering, not the behaviour of nested programs as a whole"]
-    ctx.run_rule("C06-R1", "three-way condition discipline: every branch on value == ONE has, on its other side, value == ZERO or Err(NotBinaryValue) before any consequence", r1_three_way, F)
-    ctx.run_rule("C06-R2", "executor shape: split children under the right comparison, join order, start_* dominates children, end_* exactly once on success", r2_executor_shape, F)
+    ctx.run_rule("C06-R1", "three-way condition discipline (path model of the executors): a path a non-binary condition can take ends in Err(NotBinaryValue) before any consequence; binary values are never rejected", r1_three_way, F)
+    ctx.run_rule("C06-R2", "executor shape (path model): split children under the right value, join order, loop iteration protocol, call target, start_* first, end_* exactly once and last on success", r2_executor_shape, F)
     ctx.run_rule("C06-R3", "compile_body: new_split(true_case, false_case) in that order, new_loop(body), repeat pushes `times` clones", r3_lowering, F)
     ctx.run_rule("C06-R3b", "compile_procedure wraps bodies with locals in Push(n) FmpUpdate ... Push(-n) FmpUpdate", r3b_locals_wrapper, F)
